@@ -154,7 +154,7 @@ func (sw *syncWorld) policy(q *simkit.ReqRecord) simkit.FaultSpec {
 		case fkStall:
 			f = simkit.FaultSpec{Kind: simkit.FStall}
 		case fkDelayLong:
-			f = simkit.FaultSpec{Kind: simkit.FDelay, Delay: 15 * time.Second}
+			f = simkit.FaultSpec{Kind: simkit.FDelay, Delay: 15*time.Second + time.Duration(p.arg%997)*time.Microsecond + 370*time.Nanosecond}
 		case fkCancel:
 			if sw.cancel != nil {
 				sw.cancel()
